@@ -1,5 +1,6 @@
 import Hifi.Model.Duration
 import Hifi.Model.TimeScale
+import Hifi.Model.Calendar
 import Hifi.Gen.Leap
 import Hifi.Gen.Epoch
 /-
@@ -202,10 +203,23 @@ def wdDiff (a b : Int) : Dur :=
 def weekdayOfDur (d : Dur) : Int :=
   (d.c * Gen.DAYS_PER_CENTURY_I64 + d.ns / Gen.NANOSECONDS_PER_DAY) % 7
 
+/-- the day count of the re-expressed epoch taken from that scale's own zero — what `weekday_in_time_scale` did
+    before fix 151cc8f; it is still the code's answer for TAI, UTC and TT, whose calendar offset is zero
+    (`C16.weekday_civil_eq_count`), and the theorems about those three scales are stated with it -/
 def Ep.weekdayIn (e : Ep) (ts : TS) : Option Int :=
   match e.to ts with
   | none => none
   | some x => some (weekdayOfDur x.dur)
+
+/-- `Epoch::weekday_in_time_scale` (since fix 151cc8f): whole days since 1900-01-01, a Monday, on the calendar of
+    the target scale: `(to_duration_in_time_scale(ts) + ts.gregorian_epoch_offset()).to_parts()` -/
+def Ep.weekdayInCivil (e : Ep) (ts : TS) : Option Int :=
+  match e.to ts with
+  | none => none
+  | some x => some (weekdayOfDur (Dur.add x.dur (Cal.gregorianEpochOffset ts)))
+
+/-- `Epoch::weekday_of_gregorian_date`: weekday of the date in the epoch's own scale -/
+def Ep.weekdayOwn (e : Ep) : Int := weekdayOfDur (Dur.add e.dur (Cal.gregorianEpochOffset e.ts))
 
 /-- `Epoch::next(weekday)` -/
 def Ep.next (e : Ep) (w : Int) : Option Ep :=
@@ -223,7 +237,17 @@ def Ep.previous (e : Ep) (w : Int) : Option Ep :=
     let delta := wdDiff w cur
     some ⟨Dur.sub e.dur (if Dur.eqb delta Dur.ZERO then Dur.unitMulI64 Gen.NANOSECONDS_PER_DAY 7 else delta), e.ts⟩
 
-/-- `Epoch::with_hms_strict(h, 0, 0)` on the duration (src/epoch/with_funcs.rs): for a negative duration
+/-- `next_on_own_calendar` / `previous_on_own_calendar` (private helpers of the `*_weekday_at_midnight/_at_noon`
+    functions since fix 256c054): like `next`/`previous` with the weekday of the date in the epoch's own scale -/
+def Ep.nextOwn (e : Ep) (w : Int) : Ep :=
+  let delta := wdDiff e.weekdayOwn w
+  ⟨Dur.add e.dur (if Dur.eqb delta Dur.ZERO then Dur.unitMulI64 Gen.NANOSECONDS_PER_DAY 7 else delta), e.ts⟩
+
+def Ep.previousOwn (e : Ep) (w : Int) : Ep :=
+  let delta := wdDiff w e.weekdayOwn
+  ⟨Dur.sub e.dur (if Dur.eqb delta Dur.ZERO then Dur.unitMulI64 Gen.NANOSECONDS_PER_DAY 7 else delta), e.ts⟩
+
+/-- arithmetic fallback of `with_hms_strict` (taken only if the calendar date cannot be rebuilt): for a negative duration
     the day that contains it starts at the whole days at or below it -/
 def withHmsStrict (d : Dur) (h : Int) : Res Dur :=
   match Dur.decompose d with
@@ -239,6 +263,19 @@ def withHmsStrict (d : Dur) (h : Int) : Res Dur :=
       | _, _, _ => .panic
     else Dur.compose sg days h 0 0 0 0 0
   | .err => .err
+  | .panic => .panic
+
+/-- `Epoch::with_hms_strict(h, 0, 0)` (since fix 256c054): midnight of the calendar day that contains the epoch in
+    its own scale (`compute_gregorian` then `maybe_from_gregorian(y, m, d, 0, 0, 0, 0, ts)`) plus the time -/
+def withHmsStrictCal (d : Dur) (ts : TS) (h : Int) : Res Dur :=
+  match Cal.computeGregorian d ts with
+  | .ok (y, mo, dd, _, _, _, _) =>
+    (match Cal.maybeFromGregorian y mo dd 0 0 0 0 ts with
+     | .ok mid => (match Dur.compose 0 0 h 0 0 0 0 0 with
+        | .ok t => .ok (Dur.add mid t) | .err => .err | .panic => .panic)
+     | .err => withHmsStrict d h
+     | .panic => .panic)
+  | .err => .panic
   | .panic => .panic
 
 /-! ### GNSS week / time of week, nanosecond counters (src/epoch/initializers.rs, ops.rs) -/
